@@ -13,7 +13,7 @@
    [gate_still_open]                          ... which holds when the resource was an object (not a function object) with
                                               distinct keys whose Condition name is not rewritten by rendering;
    [resolve_model_twice]                      the model-level fixed point;
-   [twice_needs_stable_condition_names]       why the last hypothesis cannot be dropped (condition names True / true);
+   [condition_names_are_kept]                 condition names True / true: the literal name is kept (repair F27);
    [resolved_model_is_frozen]                 the fixed point is about the SAME assignment: with other parameters the resolved
                                               model does not follow the template any more. *)
 From Coq Require Import List Bool NArith ZArith Lia.
@@ -140,12 +140,21 @@ Proof.
   - apply str_eqb_spec in E0. subst k0. rewrite Hne. reflexivity.
   - destruct (str_eqb k k0); [reflexivity | exact IH].
 Qed.
-(* keep_type puts back a Type that is already there *)
+Lemma lookup_set_key_same k v d : lookup k (set_key k v d) = Some v.
+Proof.
+  induction d as [|[k0 x] r IH]; cbn [set_key lookup].
+  - rewrite str_eqb_refl. reflexivity.
+  - destruct (str_eqb k k0) eqn:E; cbn [lookup]; rewrite E; [reflexivity | exact IH].
+Qed.
+Lemma keep_key_same k d : keep_key k d d = d.
+Proof.
+  unfold keep_key. destruct (lookup k d) as [v|] eqn:E; [|reflexivity]. destruct v; try reflexivity.
+  apply set_key_same. exact E.
+Qed.
+(* keep_type puts back a Type and a Condition name that are already there *)
 Lemma keep_type_same r : keep_type r r = r.
 Proof.
-  destruct r as [| | | | | | |d]; try reflexivity. unfold keep_type.
-  destruct (lookup K_Type d) as [v|] eqn:E; [|reflexivity]. destruct v; try reflexivity.
-  rewrite (set_key_same _ _ _ E). reflexivity.
+  destruct r as [| | | | | | |d]; try reflexivity. unfold keep_type. rewrite !keep_key_same. reflexivity.
 Qed.
 
 Definition gate_open (resolved : list (str * bool)) (r : value) : bool :=
@@ -212,34 +221,35 @@ Proof.
     + destruct (is_novalue x'); [exact IH|]. cbn [lookup]. rewrite Ek. exact IH.
 Qed.
 
-(* what the input side must satisfy for the gate to stay open: the resource is an object, not a function object, its keys
-   are distinct, and the NAME in its Condition attribute is not rewritten by rendering (render_str lower-cases True / FALSE
-   and substitutes {{resolve:ssm:..}}: such a name would be looked up under another spelling the second time) *)
+(* what the input side must satisfy for the gate to stay open: the resource is an object with distinct keys and not a function
+   object.  (Before the repair F27 the NAME in the Condition attribute was rendered like any text -- "True" became "true" -- so
+   a further clause, "rendering does not rewrite the name", was needed here; since CFModel.resolve puts the literal name back it
+   is gone: see Findings/F27.v for the model of the code as found and the witness.) *)
 Definition resource_wf (ps : list (str * value)) (r : value) : bool :=
   match r with
-  | VDict fields =>
-      negb (is_fn_dict fields) && nodupb (keys fields) &&
-      match lookup K_Condition fields with Some (VStr c) => str_eqb (render_str ps c) c | _ => true end
+  | VDict fields => negb (is_fn_dict fields) && nodupb (keys fields)
   | _ => false
   end.
 
+Lemma lookup_keep_key_other k k' o d : str_eqb k k' = false -> lookup k (keep_key k' o d) = lookup k d.
+Proof. intros H. unfold keep_key. destruct (lookup k' o) as [[| | | t | | | |]|]; try reflexivity. apply lookup_set_key_other. exact H. Qed.
+
+(* the gate of the resolved resource reads the SAME condition name as the gate of its definition *)
 Lemma gate_still_open e resolved fields r' :
   resource_wf (params e) (VDict fields) = true ->
   gate resolved (VDict fields) = Ok true -> resolve_resource e (VDict fields) = Ok r' -> gate resolved r' = Ok true.
 Proof.
-  intros Hwf Hg Hr. unfold resource_wf in Hwf. apply andb_true_iff in Hwf. destruct Hwf as [Hwf Hc].
-  apply andb_true_iff in Hwf. destruct Hwf as [Hf Hnd]. apply negb_true_iff in Hf. apply nodupb_spec in Hnd.
+  intros Hwf Hg Hr. unfold resource_wf in Hwf. apply andb_true_iff in Hwf. destruct Hwf as [Hf Hnd].
+  apply negb_true_iff in Hf. apply nodupb_spec in Hnd.
   unfold resolve_resource in Hr. rewrite (resolve_dict_generic e fields Hf) in Hr.
   destruct (rdict e fields) as [d'|] eqn:Ed; cbn [bind] in Hr; [|discriminate]. inv Hr.
-  assert (Hk : exists d'', keep_type (VDict fields) (VDict d') = VDict d'' /\ lookup K_Condition d'' = lookup K_Condition d').
-  { unfold keep_type. destruct (lookup K_Type fields) as [v|]; [|eauto].
-    destruct v; eauto. eexists. split; [reflexivity|]. apply lookup_set_key_other. vm_compute. reflexivity. }
-  change (gate resolved (keep_type (VDict fields) (VDict d')) = Ok true).
-  destruct Hk as (d'' & -> & Hl). unfold gate in *. rewrite Hl, (rdict_lookup e fields d' Hnd Ed K_Condition).
-  destruct (lookup K_Condition fields) as [v|]; [|reflexivity].
-  destruct v as [| | | c | | | |]; try discriminate.
-  - reflexivity.
-  - cbn [resolve]. apply str_eqb_spec in Hc. rewrite Hc. destruct (is_novalue (VStr c)); [reflexivity | exact Hg].
+  pose proof (rdict_lookup e fields d' Hnd Ed K_Condition) as Hl.
+  unfold keep_type, gate in *. unfold keep_key at 1.
+  destruct (lookup K_Condition fields) as [v|] eqn:Ec.
+  - destruct v as [| | | c | | | |]; try discriminate.
+    + rewrite lookup_keep_key_other by (vm_compute; reflexivity). rewrite Hl. reflexivity.
+    + rewrite lookup_set_key_same. exact Hg.
+  - rewrite lookup_keep_key_other by (vm_compute; reflexivity). rewrite Hl. reflexivity.
 Qed.
 
 (* ------------------------------------------------------------------------------------------------------------------ *)
@@ -360,20 +370,17 @@ Example model_fixed_point_ex :
     resolve_model [] ex_decls [] [] ex_cs ex_rs' = Ok (model_out ex_cs ex_rs').
 Proof. eexists. split; [vm_compute; reflexivity|]. repeat split; vm_compute; reflexivity. Qed.
 
-(* [resource_wf] cannot be dropped: "True" and "true" are both legal logical ids.  A resource gated by condition True (which
-   holds) comes out of the first resolution with its attribute rendered as "true"; if a condition of THAT name is declared and
-   false, the second resolution drops the resource -- although the first result is function-free and rendered *)
+(* condition NAMES are literals: "True" and "true" are both legal logical ids.  A resource gated by condition True (which holds)
+   keeps the name True in the resolved model, so the second resolution gates it on the same condition and keeps it -- also when a
+   condition called true is declared and false.  (The code as found rendered the name to "true" and the second resolution
+   dropped the resource: finding F27, Findings/F27.v.) *)
 Definition tt_cdecl : list (str * value) := [(S_True, VBool true); (S_true, VBool false)].
 Definition tt_rs : list (str * value) := [([65], VDict [(K_Type, VStr s_Bucket); (K_Condition, VStr S_True)])].
-Example twice_needs_stable_condition_names :
-  exists cs rs' out2,
-    resolve_model [] [] [] [] tt_cdecl tt_rs = Ok (model_out cs rs') /\
-    forallb (fun kv => no_fn_dict (snd kv) && rendered [] (snd kv)) rs' = true /\
-    resolve_model [] [] [] [] cs rs' = Ok out2 /\ out2 <> model_out cs rs' /\ out2 = model_out cs [].
-Proof.
-  eexists. eexists. eexists. split; [vm_compute; reflexivity|]. split; [vm_compute; reflexivity|].
-  split; [vm_compute; reflexivity|]. split; [discriminate | reflexivity].
-Qed.
+Example condition_names_are_kept :
+  exists cs,
+    resolve_model [] [] [] [] tt_cdecl tt_rs = Ok (model_out cs tt_rs) /\
+    resolve_model [] [] [] [] cs tt_rs = Ok (model_out cs tt_rs).
+Proof. eexists. split; vm_compute; reflexivity. Qed.
 
 (* 3. the fixed point is about the SAME assignment.  Resolve the template above with E = prod, then resolve the RESULT with
       E = dev: nothing changes (the Ref text "prod" is plain text now, the conditions are booleans), although the template itself
